@@ -478,15 +478,11 @@ fn derive_func_op_shape(def: &FuncOpDef, symbol_table: &mut BTreeMap<Rc<str>, Sh
             let func_shape = func.derive_shape(symbol_table);
             // target must be a list, a tuple or a string
             match &target_shape {
-                Shape::List(_) | Shape::Hole(_) => {}
-                Shape::Narrowed(NarrowedShape {
-                    types: NarrowingShape::Any,
-                    ..
-                }) => {}
-                Shape::Tuple(_) | Shape::Str(_) | Shape::Narrowed(_) => {
-                    // The result is again a tuple / a string (or, for a target that
-                    // is one of several candidates, not known to be a list): nothing
-                    // is known about it statically.
+                Shape::List(_) => {}
+                Shape::Tuple(_) | Shape::Str(_) | Shape::Hole(_) | Shape::Narrowed(_) => {
+                    // The result is again a tuple / a string (or, for a target of
+                    // unknown shape, not known to be a list): nothing is known about
+                    // it statically.
                     return Shape::Narrowed(NarrowedShape {
                         pos: pos.clone(),
                         types: NarrowingShape::Any,
